@@ -12,6 +12,13 @@ def fuzz(name, target, fuzztime, workers=8, timeout=None):
     return {"name": name, "kind": "fuzz", "target": target, "thorough": t}
 
 PROPS = {
+    "C08": {
+        "level": "exploration",
+        "jobs": [
+            rapid("removal", "^TestC08$", {"checks": 12, "steps": 35, "shards": 8, "timeout": 900, "shrinktime": "30s"},
+                  {"checks": 200, "steps": 50, "shards": 14, "timeout": 5000, "shrinktime": "120s"}),
+        ],
+    },
     "C07": {
         "level": "exploration",
         "jobs": [
